@@ -3034,6 +3034,7 @@ def sf_evrowt(eng, node, prefix, sep, suffix, clause):
 
 
 SPEC_FUNCS = {
+    'ysign': _wrap(specs.ysign), 'ydom': _wrap(specs.ydom),
     'psat': _wrap(specs.psat), 'valid1': _wrap(specs.valid1), 'cvalid': _wrap(specs.cvalid), 'cdistinct': _wrap(specs.cdistinct),
     'cmem': _wrap(specs.cmem), 'csubsel': _wrap(specs.csubsel),
     'setof': lambda eng, node, L: VSeqSet(specs.cset(_term(L))),
@@ -3356,6 +3357,9 @@ BUILTINS = {'str': b_str, 'bool': b_bool, 'set': b_set, 'all': b_allany_raw, 'an
 def lib_combinations(eng, node, seq, k):
     if isinstance(seq, VRange) and seq.step == 1 and (isinstance(seq.lo, int) and seq.lo == 0) and not isinstance(seq.hi, int):
         return VSeq(specs.idxcombs(toz(seq.hi), toz(k)))
+    if isinstance(seq, VRange) and seq.step == 1:
+        # the k-subsets of lo..hi-1 in itertools order = combinations of the literal list lo, lo+1, ...
+        return VSeq(specs.combs(specs.apseq(toz(seq.lo), z3.simplify(toz(seq.hi) - toz(seq.lo))), toz(k)))
     if isinstance(seq, VSeq) and seq.sortname == 'ISeq':
         return VSeq(specs.combs(seq.term, toz(k)))
     if isinstance(seq, VTuple) and isinstance(k, int):
@@ -3380,6 +3384,8 @@ def lib_product(eng, node, *args, repeat=1):
     import itertools
     if len(args) == 1 and isinstance(args[0], VTuple) and args[0].items == [1, -1] and not isinstance(repeat, int):
         return VSeq(specs.signvecs(toz(repeat)))
+    if len(args) == 1 and isinstance(args[0], VTuple) and args[0].items == [-1, 1] and not isinstance(repeat, int):
+        return VSeq(specs.signvecsm(toz(repeat)))
     if all(isinstance(a, VTuple) for a in args) and isinstance(repeat, int):
         return VTuple([VTuple(list(c)) for c in itertools.product(*[a.items for a in args], repeat=repeat)], 'list')
     raise Unsupported('product of symbolic sequences')
